@@ -56,6 +56,8 @@ def case_strategy():
     @st.composite
     def case(draw):
         c = draw(gen_cb.codebases(min_platforms=3, max_platforms=4, header_bias=True, max_files=10))
+        if not c["tree"]:
+            c["tree"]["main.c"] = {"items": [["code", 2]], "style": [0]}  # (the generator may draw a code base of raw files only)
         names = sorted(c["tree"])
         # twins: same base name in another directory, identical or different content
         dirs = sorted({os.path.dirname(n) for n in names} | {"twin", "twin/deep"})
